@@ -1105,7 +1105,7 @@ DOMNode* DOMDocumentImpl::adoptNode(DOMNode* sourceNode) {
             fNode.callUserDataHandlers(DOMUserDataHandler::NODE_ADOPTED, sourceNode, sourceNode);
         }
     }
-    return 0;
+    return sourceNode;
 }
 
 void DOMDocumentImpl::normalizeDocument() {
